@@ -102,6 +102,10 @@ Sites(seq, r) ==
             LET m == Len(r.lit) IN
             { s \in 1..n : /\ s + m - 1 <= n
                            /\ \A j \in 1..m : seq[s + j - 1] \in r.lit[j] }
+      (* one pattern with both styles as alternatives, "([KR])|(?=[D])", the two letter classes being disjoint:     *)
+      (* a residue of the first class is cut after, a residue of the second class is cut before                     *)
+      [] r.style = "mixed" ->
+            { s \in 1..n : seq[s] \in r.lit[1] } \cup { i \in 0..(n - 1) : seq[i + 1] \in r.after }
 
 SitesOfRules(seq, rules) == UNION { Sites(seq, rules[i]) : i \in 1..Len(rules) }
 
